@@ -680,6 +680,8 @@ def run(ctx):
                        "systematic perturbations: every key component, every ciphertext component, every proof component (swapped with another valid transfer's / bit-flipped); "
                        "crafted-prover forgeries (truncated response for transfers and sec-to-pub, overspend with bogus remaining range proof); "
                        "table Serial/Deserial round trips m in {1,2,16,1000,65536,65537,2^17}; sha3 tie of the first challenge of 6 real proofs; "
+                       "end-to-end composed model: 2 (thorough 18) balance/amount classes x {transfer, sec-to-pub}, each honest + 1 (4) in-the-exponent perturbations, "
+                       "all ciphertexts / 21 (11) transcript frames / responses / range-proof elements / verdict codes compared; "
                        "distinct = distinct canonical case hash")
     if proof_broken:
         found = bool(ctx.violations)
